@@ -478,6 +478,8 @@ def setup():
             print(out[-3000:]); rc_all = 1
         for d in sorted(glob.glob(os.path.join(HARNESS, "cmd", "*"))):
             name = os.path.basename(d)
+            if not glob.glob(os.path.join(d, "*.go")):
+                continue
             rc, o, dt = go_build("./cmd/" + name, os.path.join(BIN, name))
             print("[setup] go build %s rc=%d %.0fs" % (name, rc, dt))
             if rc != 0:
